@@ -577,7 +577,21 @@ func (rc *repoCase) emit(s *stream.Stream, mode string, threads int) error {
 			}
 		}
 		// the compaction: slots (nil or path) in go-git's order → order of getDiff's result
-		if len(slots) > 0 && len(slots) <= 400 {
+		// with rename pairs in the list (precision 2) the order of go-git's file patches is not the same
+		// in every call (its rename detector iterates over maps), so the harness's view and goat's own
+		// call may list them differently; the compaction itself is covered by the diff-filter stream
+		renames := false
+		if mode == "2" {
+			for _, d := range diffs {
+				if d.hasFrom && d.hasTo && d.from != d.to {
+					renames = true
+				}
+			}
+		}
+		if renames {
+			s.Count("compaction:skipped(rename-pairs)")
+		}
+		if len(slots) > 0 && len(slots) <= 400 && !renames {
 			want := strings.Join(order, " ")
 			sorted := append([]string{}, order...)
 			sort.Strings(sorted)
